@@ -40,29 +40,30 @@ type ruleStat struct {
 
 // Ctx is the loaded program plus the obligation ledger of one property run.
 type Ctx struct {
-	Prop      string
-	Tier      string
-	RepoDir   string
-	VerifDir  string
-	Fset      *token.FileSet
-	Roots     []*packages.Package
-	ByPath    map[string]*packages.Package
-	Prog      *ssa.Program
-	SSA       map[string]*ssa.Package
-	cg        *callgraph.Graph
-	cgKind    string
-	Obls      []*Obl
-	keys      map[string]int
-	floors    map[string]int
-	order     []string
-	known     []knownFinding
-	notes     []string
-	start     time.Time
-	nFuncs    int
-	rangeMemo map[*ssa.Function][4]int64
-	roleMemo  map[string]*ssa.Function
-	rangeBusy map[*ssa.Function]bool
-	lenMemo   map[any][2]int64
+	Prop        string
+	Tier        string
+	RepoDir     string
+	VerifDir    string
+	Fset        *token.FileSet
+	Roots       []*packages.Package
+	ByPath      map[string]*packages.Package
+	Prog        *ssa.Program
+	SSA         map[string]*ssa.Package
+	cg          *callgraph.Graph
+	cgKind      string
+	Obls        []*Obl
+	keys        map[string]int
+	floors      map[string]int
+	order       []string
+	known       []knownFinding
+	notes       []string
+	start       time.Time
+	nFuncs      int
+	rangeMemo   map[*ssa.Function][4]int64
+	roleMemo    map[string]*ssa.Function
+	assignDepth int
+	rangeBusy   map[*ssa.Function]bool
+	lenMemo     map[any][2]int64
 }
 
 type knownFinding struct {
